@@ -25,7 +25,10 @@ QUERY = [("vt.aa", None), ("vt.bb", None), ("vt.cc", None), ("core.file", None),
 def make_cfg(seed, max_dev):
     cfg = c06.make_cfg("c09", seed, max_dev=max_dev, checks=(), schemas=["vt.aa", "vt.bb", "vt.cc", "core.file"])
     G, GD, E, H, GF = cfg["paths"]
-    cfg["ops"] = cfg["ops"][:-2] + [["sa", G, "k"], ["sa", GD, "k"], ["sa", "/", "k"], ["da", "/", "k"], ["da", GD, "k"], ["rgrp", G], ["rgrp", H], ["mkds", GF], ["mkgrp", f"{H}/{G.strip('/')}"], ["R"], ["B"]]
+    cfg["ops"] = cfg["ops"][:-2] + [["sa", G, "k"], ["sa", GD, "k"], ["sa", "/", "k"], ["da", "/", "k"], ["da", GD, "k"], ["rgrp", G], ["rgrp", H], ["mkds", GF], ["mkgrp", f"{H}/{G.strip('/')}"],
+        ["gmove", G, GD.split("/")[-1], "zz"], ["gcopy", G, GD.split("/")[-1], "zz"], ["gcopy", G, GD.split("/")[-1], "yy/zz"],
+        ["mkdsv", E, "int8_127"], ["mkdsv", E, "void1"], ["mkdsv", GD, "bytes7f"], ["mkdsv", H, "uint8_127"], ["mkdsv", H, "void2"],
+        ["R"], ["B"]]
     return cfg
 
 
